@@ -23,8 +23,17 @@ R6 invalidation touches only the invalidated path: the INVALID mark is guarded b
    (the list at a node also holds the *related* locations cross-registered by `register_relation`).
 R7 `_RemotePathMapper.get` filters: entries come from `locations[dep][name]` with dep/name restricted to the
    arguments when given, and an entry is kept iff `data_type is None or loc.data_type == data_type`
-   (truth table of the comprehension condition, P10); `get_data_locations` forwards its four arguments to the
-   matching parameters of `get`.
+   (truth table, P10); `get_data_locations` forwards its four arguments to the matching parameters of `get`.
+   Every enumeration of `locations[dep][name]` is interpreted, whatever its syntax: a comprehension clause (the
+   key loops may be statement loops around it or earlier clauses of the same comprehension), a statement loop
+   that appends its variable (its body is walked on the CFG under every valuation; boolean temporaries are
+   followed), or a whole list handed over (`extend`, `+=`, `return`).  A key is bound by `[arg] if arg is not None
+   else <all keys>` (conditional expression, through temporaries, or the same choice written as if/else
+   assignments; either polarity; `.keys()` / copies accepted), by `[arg]` / the argument itself (answers only
+   when the argument is given) or by a plain sweep (must not answer when the argument is given).  The table is
+   over four facts (data_type given, entry type equal, deployment given, name given): for every valuation an
+   entry of the addressed list is answered exactly once when wanted and not at all otherwise.  Tests that
+   cannot be expressed over these facts (e.g. a test on the key inside the sweep) are an analysis error.
 
 Not decided: agreement with a reference model for arbitrary histories (needs execution).
 """
@@ -34,7 +43,8 @@ from __future__ import annotations
 import ast
 import itertools
 
-from ..model import enclosing_stmt, unparse
+from ..dataflow import defs_of, reaching_defs
+from ..model import enclosing_stmt, parent, unparse
 from ..selftest import V
 from ._util_E import (
     coexec,
@@ -65,8 +75,8 @@ META = {
         "Pairing of the two parallel per-node maps of _RemotePathMapper (locations / valid_paths) by node, key path and "
         "value expression with a CFG 'executed together' relation; whole-program write/reference tables for data_type, "
         "DataType.INVALID and path_mapper; shape of the invalidation recursion; dominance of wait + PRIMARY test over "
-        "every returned source location; guard of the append in put; truth table of the get() filter. Decides necessary "
-        "structural conditions only."
+        "every returned source location; guard of the append in put; truth table of the get() filter over every enumeration of "
+        "locations[dep][name] (comprehension clauses, statement loops with append, whole lists). Decides necessary structural conditions only."
     ),
     "undecided": "agreement with a reference model for arbitrary registration/relation/invalidation histories (needs execution)",
     "assumptions": [
@@ -613,30 +623,183 @@ def r5(ctx):
 # --------------------------------------------------------------------------- R7
 
 
-def _truth_table(expr, atoms):
-    """Evaluate a boolean expression over named atoms: atoms = {unparse text: (variable, negated?)}."""
-    names = sorted({v for v, _ in atoms.values()})
-    rows = {}
-    for vals in itertools.product([False, True], repeat=len(names)):
-        env = dict(zip(names, vals))
+def _none_test(t, param):
+    """`param is not None` -> True (argument given), `param is None` -> False, anything else -> None."""
+    if isinstance(t, ast.UnaryOp) and isinstance(t.op, ast.Not):
+        r = _none_test(t.operand, param)
+        return None if r is None else not r
+    if isinstance(t, ast.Compare) and len(t.ops) == 1:
+        l, r = t.left, t.comparators[0]
+        for a, b in ((l, r), (r, l)):
+            if isinstance(a, ast.Name) and a.id == param and isinstance(b, ast.Constant) and b.value is None:
+                if isinstance(t.ops[0], (ast.IsNot, ast.NotEq)):
+                    return True
+                if isinstance(t.ops[0], (ast.Is, ast.Eq)):
+                    return False
+    return None
 
-        def ev(e):
-            if isinstance(e, ast.BoolOp):
-                vs = [ev(x) for x in e.values]
-                if any(v is None for v in vs):
-                    return None
-                return all(vs) if isinstance(e.op, ast.And) else any(vs)
-            if isinstance(e, ast.UnaryOp) and isinstance(e.op, ast.Not):
-                v = ev(e.operand)
-                return None if v is None else not v
-            t = unparse(e)
-            if t in atoms:
-                var, neg = atoms[t]
-                return env[var] != neg
+
+def _singleton(f, e, param) -> bool:
+    e = deref(f, e)
+    return isinstance(e, (ast.List, ast.Tuple, ast.Set)) and len(e.elts) == 1 and isinstance(e.elts[0], ast.Name) and e.elts[0].id == param
+
+
+def _key_sweep(f, e, base, outer):
+    """`e` enumerates every key of `<base>.locations` (outer == ()) / of `<base>.locations[dep]` (outer == (dep,)):
+    the mapping itself, `.keys()` of it or a copy (`list(...)`, `sorted(...)`) of either."""
+    e, _ = strip_copy(f, e)
+    if isinstance(e, ast.Call) and isinstance(e.func, ast.Attribute) and e.func.attr == "keys" and not e.args:
+        e = e.func.value
+    kp = keypath(f, e)
+    return kp is not None and kp[0] == base and kp[1] == "locations" and kp[2] == tuple(outer)
+
+
+def cond_value(f, e):
+    """The two values a condition chooses between -> (test, value if true, value if false) or None:
+    `a if t else b` (through temporaries), or a local assigned exactly twice, in the two branches of one
+    if/else or unconditionally and then again in an else-less `if` later in the same block."""
+    use = e
+    e = deref(f, e)
+    if isinstance(e, ast.IfExp):
+        return e.test, e.body, e.orelse
+    if not isinstance(e, ast.Name):
+        return None
+    ds = defs_of(f, e.id)
+    if len(ds) != 2 or not all(d.kind == "assign" and d.index is None and d.value is not None for d in ds):
+        return None
+    if isinstance(use, ast.Name) and use.id == e.id and len(reaching_defs(f, e.id, use)) != 2:
+        return None
+    (da, db) = ds
+    pa, pb = parent(da.stmt), parent(db.stmt)
+
+    def within(stmt, block):
+        return any(x is stmt for x in block)
+
+    if pa is pb and isinstance(pa, ast.If):
+        if within(da.stmt, pa.body) and within(db.stmt, pa.orelse):
+            return pa.test, da.value, db.value
+        if within(db.stmt, pa.body) and within(da.stmt, pa.orelse):
+            return pa.test, db.value, da.value
+        return None
+    for first, second, cond in ((da, db, pb), (db, da, pa)):
+        if isinstance(cond, ast.If) and not cond.orelse and within(second.stmt, cond.body):
+            owner = parent(cond)
+            for fld in ("body", "orelse", "finalbody"):
+                block = getattr(owner, fld, None)
+                if isinstance(block, list) and within(cond, block) and within(first.stmt, block) \
+                        and [x is first.stmt for x in block].index(True) < [x is cond for x in block].index(True):
+                    return cond.test, second.value, first.value
+    return None
+
+
+def _binder(f, name, lp, loops):
+    """Loop that binds `name` where the iterable of loop `lp` is evaluated -> (Loop, position) or None."""
+    if lp.is_comp:
+        comp = parent(lp.node)
+        gens = list(comp.generators)
+        i = next(k for k, x in enumerate(gens) if x is lp.node)
+        for gen in reversed(gens[:i]):
+            for cand in loops:
+                if cand.node is gen and cand.binds(name) != -1:
+                    return cand, cand.binds(name)
+        return loop_binding(f, name, comp, loops)
+    return loop_binding(f, name, lp.iter, loops)
+
+
+# the filter of get is decided over four facts: was `data_type` / `deployment` / `name` given (not None), and
+# does the entry's data_type equal the requested one
+FACTS = ("equal", "given", "deployment given", "name given")
+GIVEN = {"data_type": "given", "deployment": "deployment given", "name": "name given"}
+
+
+def _atom(e, v):
+    """Atomic condition of get's filter -> (fact, negated?) or None; `v` is the variable holding the entry."""
+    for param, fact in GIVEN.items():
+        r = _none_test(e, param)
+        if r is not None:
+            return fact, not r
+    if isinstance(e, ast.Name) and e.id == "data_type":
+        return "given", False
+    if v is not None and isinstance(e, ast.Compare) and len(e.ops) == 1:
+        sides = {unparse(e.left), unparse(e.comparators[0])}
+        if sides == {f"{v}.data_type", "data_type"}:
+            if isinstance(e.ops[0], (ast.Eq, ast.Is)):
+                return "equal", False
+            if isinstance(e.ops[0], (ast.NotEq, ast.IsNot)):
+                return "equal", True
+    return None
+
+
+def _eval(e, v, env, local=None):
+    """Truth of a boolean expression when the facts have the values `env` (and the boolean temporaries `local`);
+    None = not interpretable."""
+    if isinstance(e, ast.BoolOp):
+        vs = [_eval(x, v, env, local) for x in e.values]
+        if any(x is None for x in vs):
             return None
+        return all(vs) if isinstance(e.op, ast.And) else any(vs)
+    if isinstance(e, ast.UnaryOp) and isinstance(e.op, ast.Not):
+        x = _eval(e.operand, v, env, local)
+        return None if x is None else not x
+    if isinstance(e, ast.Constant) and isinstance(e.value, bool):
+        return e.value
+    if isinstance(e, ast.Name) and local and e.id in local:
+        return local[e.id]
+    a = _atom(e, v)
+    if a is not None:
+        return env[a[0]] != a[1]
+    return None
 
-        rows[vals] = ev(expr)
-    return names, rows
+
+def _collects(n, v):
+    """Statement-level node `n` hands the loop variable `v` itself to the answer: `<list>.append(v)`, `yield v`."""
+    if isinstance(n, ast.Call) and isinstance(n.func, ast.Attribute) and n.func.attr == "append" and len(n.args) == 1 and not n.keywords:
+        return isinstance(n.args[0], ast.Name) and n.args[0].id == v
+    if isinstance(n, ast.Yield):
+        return isinstance(n.value, ast.Name) and n.value.id == v
+    return False
+
+
+def _kept_by_body(ctx, f, lp, v, env):
+    """Statement loop `for v in <entries>`: is the entry collected in an iteration in which the facts have the truth
+    values `env`?  The loop body is walked along its normal edges, every test decided by `env`; boolean temporaries
+    assigned on the way are followed."""
+    g = f.cfg
+    inside = {id(x) for x in ast.walk(lp.node)}
+    heads = ids_at(f, lp.node)
+    sinks = {nid for n in ast.walk(lp.node) if _collects(n, v) for nid in ids_at(f, n)}
+    ctx.require(bool(sinks), f"C21.R7: the loop `for {v} in {unparse(lp.iter)[:60]}` of get collects nothing (`.append({v})` expected)")
+    cur = [b for h in heads for b, k in g.succ[h] if k == "t"]
+    ctx.require(len(cur) == 1, "C21.R7: cannot locate the body of the entry loop of get")
+    nid = cur[0]
+    local = {}
+    for _ in range(200):
+        if nid in sinks:
+            return True
+        if nid in heads:
+            return False
+        n = g.nodes[nid]
+        ctx.require(n.ast is not None and id(n.ast) in inside and n.kind not in ("iter", "break", "return", "raise_stmt"),
+                    f"C21.R7: cannot interpret `{n.text()[:60]}` inside the entry loop of get (only tests over data_type and the collection of the entry are understood)")
+        if n.kind == "test":
+            val = _eval(n.ast, v, env, local)
+            ctx.require(val is not None, f"C21.R7: cannot interpret the test `{unparse(n.ast)[:80]}` that filters the entries of get")
+            nxt = [b for b, k in g.succ[nid] if k == ("t" if val else "f")]
+        else:
+            if isinstance(n.ast, (ast.Assign, ast.AnnAssign)):
+                tgts = n.ast.targets if isinstance(n.ast, ast.Assign) else [n.ast.target]
+                for t in tgts:
+                    for x in ast.walk(t):
+                        if isinstance(x, ast.Name):
+                            local.pop(x.id, None)
+                if len(tgts) == 1 and isinstance(tgts[0], ast.Name) and n.ast.value is not None:
+                    val = _eval(n.ast.value, v, env, local)
+                    if val is not None:
+                        local[tgts[0].id] = val
+            nxt = [b for b, k in g.succ[nid] if k == "n"]
+        ctx.require(len(nxt) == 1, f"C21.R7: cannot follow the entry loop of get past `{n.text()[:60]}`")
+        nid = nxt[0]
+    ctx.require(False, "C21.R7: the entry loop of get does not finish an iteration")
 
 
 def r7(ctx):
@@ -644,61 +807,119 @@ def r7(ctx):
     f = prog.func(f"{MAPPER}.get")
     params = [p for p in f.params if p != "self"]
     ctx.require({"data_type", "deployment", "name"} <= set(params), "C21.R7: get(path, data_type, deployment, name) signature changed")
-    comps = [n for n in f.body_nodes() if isinstance(n, (ast.ListComp, ast.GeneratorExp)) and any(
-        (kp := keypath(f, gen.iter)) is not None and kp[1] == "locations" for gen in n.generators)]
-    ctx.require(len(comps) == 1, "C21.R7: the comprehension over node.locations[dep][name] was not found in get")
-    comp = comps[0]
-    gen = comp.generators[0]
-    kp = keypath(f, gen.iter)
+    g = f.cfg
     loops = loops_of(f)
-    # keys come from loops restricted to the arguments when given
-    for key, param in zip(kp[2], ("deployment", "name")):
-        ok = False
-        lb = loop_binding(f, key, comp, loops) if key.isidentifier() else None
-        if lb is not None:
-            it = deref(f, lb[0].iter)
-            if isinstance(it, ast.IfExp):
-                t = it.test
-                given = isinstance(t, ast.Compare) and isinstance(t.left, ast.Name) and t.left.id == param and isinstance(t.ops[0], ast.IsNot) \
-                    and isinstance(t.comparators[0], ast.Constant) and t.comparators[0].value is None
-                only = isinstance(it.body, (ast.List, ast.Tuple, ast.Set)) and len(it.body.elts) == 1 and isinstance(it.body.elts[0], ast.Name) and it.body.elts[0].id == param
-                inverted = isinstance(t, ast.Compare) and isinstance(t.left, ast.Name) and t.left.id == param and isinstance(t.ops[0], ast.Is) \
-                    and isinstance(t.comparators[0], ast.Constant) and t.comparators[0].value is None
-                only_inv = isinstance(it.orelse, (ast.List, ast.Tuple, ast.Set)) and len(it.orelse.elts) == 1 and isinstance(it.orelse.elts[0], ast.Name) and it.orelse.elts[0].id == param
-                alt = it.orelse if given else it.body
-                all_keys = keypath(f, alt) is not None and keypath(f, alt)[1] == "locations"
-                ok = ((given and only) or (inverted and only_inv)) and all_keys
-            else:
-                ctx.require(False, f"C21.R7: cannot interpret the iterable of `{key}` in get: `{unparse(it)[:80]}`")
-        elif key == param:
-            ok = True
-        ctx.ob("R7", f"get restricts the {param} key to the argument when it is given, else sweeps all keys", ok, func=f, node=comp, instance=f"get:key:{param}",
-               message=f"get(path, {param}=x) is not restricted to locations[...] of x (or ignores the other {param}s when none is given)")
-    # the filter condition
-    v = gen.target.id if isinstance(gen.target, ast.Name) else None
-    ctx.require(v is not None and isinstance(comp.elt, ast.Name) and comp.elt.id == v, "C21.R7: get's comprehension does not yield its own loop variable")
-    conds = gen.ifs
-    if not conds:
-        ctx.ob("R7", "get keeps an entry iff data_type is None or loc.data_type == data_type", False, func=f, node=comp, instance="get:filter",
-               message="get ignores its data_type argument")
-        return
-    expr = conds[0] if len(conds) == 1 else ast.BoolOp(op=ast.And(), values=list(conds))
-    atoms = {
-        "data_type is not None": ("given", False), "data_type is None": ("given", True), "data_type": ("given", False),
-        f"{v}.data_type != data_type": ("equal", True), f"{v}.data_type == data_type": ("equal", False),
-        f"data_type != {v}.data_type": ("equal", True), f"data_type == {v}.data_type": ("equal", False),
-        f"{v}.data_type is data_type": ("equal", False), f"{v}.data_type is not data_type": ("equal", True),
-    }
-    names, rows = _truth_table(expr, atoms)
-    ctx.require(all(r is not None for r in rows.values()), f"C21.R7: cannot interpret the filter `{unparse(expr)}` of get")
+    # what enumerates the entries stored under locations[dep][name]: comprehension clauses, statement loops, and whole
+    # lists handed over at once (`result.extend(<list>)`, `result += <list>`, `return <list>`)
+    entries = []
+    for lp in loops:
+        it, _ = strip_copy(f, lp.iter)
+        kp = keypath(f, it)
+        if kp is not None and kp[1] == "locations" and len(kp[2]) == 2:
+            entries.append((lp, kp, lp.node if not lp.is_comp else parent(lp.node)))
+    for n in f.body_nodes():
+        whole = None
+        if isinstance(n, ast.Call) and isinstance(n.func, ast.Attribute) and n.func.attr == "extend" and len(n.args) == 1:
+            whole = n.args[0]
+        elif isinstance(n, ast.AugAssign) and isinstance(n.op, ast.Add):
+            whole = n.value
+        elif isinstance(n, ast.Return) and n.value is not None:
+            whole = n.value
+        if whole is not None:
+            kp = keypath(f, strip_copy(f, whole)[0])
+            if kp is not None and kp[1] == "locations" and len(kp[2]) == 2:
+                entries.append((None, kp, n))
+    ctx.require(len(entries) >= 1, "C21.R7: the comprehension (or loop) over node.locations[dep][name] was not found in get")
+    envs = [dict(zip(FACTS, vals)) for vals in itertools.product([False, True], repeat=len(FACTS))]
+    kept_rows = [[] for _ in envs]
+    shown = []
+    for lp, kp, where in entries:
+        v = None
+        if lp is not None:
+            v = lp.target.id if isinstance(lp.target, ast.Name) else None
+            ctx.require(v is not None, f"C21.R7: cannot interpret the target of `for {unparse(lp.target)} in {unparse(lp.iter)[:60]}` in get")
+        # where the keys come from: `cond` = [argument] when given else every key; `only` = the argument alone (nothing is
+        # stored under the key None, so such an enumeration answers only when the argument is given); `sweep` = every key
+        # (must not answer when the argument is given)
+        binders = []
+        modes = {}
+        for depth, (key, param) in enumerate(zip(kp[2], ("deployment", "name"))):
+            mode = "bad"
+            lb = None
+            if key.isidentifier():
+                lb = _binder(f, key, lp, loops) if lp is not None else loop_binding(f, key, where, loops)
+            if lb is not None:
+                ctx.require(lb[1] is None, f"C21.R7: cannot interpret the binding of `{key}` by `for {unparse(lb[0].target)} in ...` in get")
+                binders.append(lb[0])
+                outer = kp[2][:depth]
+                cv = cond_value(f, lb[0].iter)
+                if cv is not None:
+                    given = _none_test(cv[0], param)
+                    ctx.require(given is not None, f"C21.R7: cannot interpret the test `{unparse(cv[0])[:60]}` that selects the {param} keys of get")
+                    only, sweep = (cv[1], cv[2]) if given else (cv[2], cv[1])
+                    if _singleton(f, only, param) and _key_sweep(f, sweep, kp[0], outer):
+                        mode = "cond"
+                else:
+                    it = deref(f, lb[0].iter)
+                    if _singleton(f, it, param):
+                        mode = "only"
+                    elif _key_sweep(f, it, kp[0], outer):
+                        mode = "sweep"
+                    else:
+                        ctx.require(keypath(f, strip_copy(f, it)[0]) is not None, f"C21.R7: cannot interpret the iterable of `{key}` in get: `{unparse(it)[:80]}`")
+            elif key == param:
+                mode = "only"
+            modes[param] = mode
+        # the filter condition: clauses of the comprehension / tests of the loop body, the tests between the key loops and
+        # the entries, and dominating tests on the arguments
+        conds = []
+        if lp is not None and lp.is_comp:
+            comp = where
+            ctx.require(isinstance(comp, (ast.ListComp, ast.GeneratorExp)) and comp.generators[-1] is lp.node and isinstance(comp.elt, ast.Name) and comp.elt.id == v,
+                        "C21.R7: get's comprehension does not yield its own loop variable")
+            for gen in comp.generators:
+                conds.extend(gen.ifs)
+        at = ids_at(f, where)
+        ctx.require(bool(at), "C21.R7: no CFG node for the entry enumeration of get")
+        stmt_binders = [b for b in binders if not b.is_comp]
+        for nid in at:
+            for e, truth, tid in guard_atoms(g, nid):
+                if _atom(e, None) is not None or any(x is g.nodes[tid].ast for b in stmt_binders for x in ast.walk(b.node)):
+                    conds.append(e if truth else ast.UnaryOp(op=ast.Not(), operand=e))
+        expr = None if not conds else conds[0] if len(conds) == 1 else ast.BoolOp(op=ast.And(), values=list(conds))
+        if expr is not None:
+            shown.append(unparse(expr))
+        in_body = lp is not None and not lp.is_comp
+        if in_body:
+            shown.append(f"tests around .append({v})")
+        answers = []
+        for env in envs:
+            res = True if expr is None else _eval(expr, v, env)
+            ctx.require(res is not None, f"C21.R7: cannot interpret the filter `{unparse(expr) if expr is not None else ''}` of get")
+            if res and in_body:
+                res = _kept_by_body(ctx, f, lp, v, env)
+            answers.append(bool(res))
+        for param, mode in modes.items():
+            ok = mode in ("cond", "only") or (mode == "sweep" and not any(a and env[GIVEN[param]] for a, env in zip(answers, envs)))
+            ctx.ob("R7", f"get restricts the {param} key to the argument when it is given, else sweeps all keys", ok, func=f, node=where, instance=f"get:key:{param}",
+                   message=f"get(path, {param}=x) is not restricted to locations[...] of x (or ignores the other {param}s when none is given)")
+        for i, env in enumerate(envs):
+            kept_rows[i].append(answers[i] and all(env[GIVEN[p]] for p, m in modes.items() if m == "only"))
     bad = []
-    for vals, res in rows.items():
-        env = dict(zip(names, vals))
-        want = (not env.get("given", False)) or env.get("equal", False)
-        if res != want:
-            bad.append((env, res))
-    ctx.ob("R7", "get keeps an entry iff data_type is None or loc.data_type == data_type", not bad and set(names) == {"equal", "given"}, func=f, node=comp, instance="get:filter",
-           message=f"the filter `{unparse(expr)}` of get disagrees with `data_type is None or loc.data_type == data_type` for {bad[:2]}")
+    for env, kept in zip(envs, kept_rows):
+        want = (not env["given"]) or env["equal"]
+        if sum(kept) != (1 if want else 0):
+            row = (env, "kept twice" if sum(kept) > 1 else "kept" if any(kept) else "dropped")
+            if not any((b[0]["equal"], b[0]["given"], b[1]) == (env["equal"], env["given"], row[1]) for b in bad):
+                bad.append(row)
+    bad = [("data_type " + ("given, " + ("equal" if env["equal"] else "different") if env["given"] else "None") + "".join(
+        f", {p} {'given' if env[GIVEN[p]] else 'None'}" for p in ("deployment", "name")) + ": an entry is " + what) for env, what in bad]
+    bad = list(dict.fromkeys(bad))
+    text = " / ".join(shown) if shown else "<none>"
+    ctx.ob("R7", "get keeps an entry iff data_type is None or loc.data_type == data_type", not bad, func=f, node=entries[0][2],
+           instance="get:filter",
+           message=("get ignores its data_type argument" if not shown else
+                    f"the filter `{text}` of get disagrees with `data_type is None or loc.data_type == data_type` for {bad[:2]}"))
 
 
 def r7b(ctx):
@@ -728,6 +949,18 @@ FLOORS = {"R1": 5, "R2": 9, "R3": 4, "R4": 6, "R5": 3, "R6": 1, "R7": 3}
 
 M = MAPPER
 _PUT_GUARD = "if location.path in node.valid_paths.get(location.deployment, {}).get(location.name, set()):"
+_GET_LOOPS = ("result = []\n    for dep in [deployment] if deployment is not None else node.locations:\n"
+              "        for n in [name] if name is not None else node.locations.get(dep, {}):\n"
+              "            result.extend([loc for loc in node.locations.get(dep, {}).get(n, []) if not (data_type is not None and loc.data_type != data_type)])\n"
+              "    return result")
+_GET_FLAT = ("deployments = [deployment] if deployment is not None else node.locations\n"
+             "    return [loc for dep in deployments for n in ([name] if name is not None else node.locations.get(dep, {})) "
+             "for loc in node.locations.get(dep, {}).get(n, []) if not (data_type is not None and loc.data_type != data_type)]")
+_GET_APPEND = ("result = []\n    for dep in [deployment] if deployment is not None else node.locations:\n"
+               "        for n in [name] if name is not None else node.locations.get(dep, {}):\n"
+               "            for loc in node.locations.get(dep, {}).get(n, []):\n"
+               "                if data_type is not None and loc.data_type != data_type:\n                    continue\n"
+               "                result.append(loc)\n    return result")
 VARIANTS = [
     # ---- R1
     V("put: valid_paths.add dropped", FILE, f"{M}.put",
@@ -796,7 +1029,30 @@ VARIANTS = [
     V("get: data_type ignored", FILE, f"{M}.get", " if not (data_type is not None and loc.data_type != data_type)", "", "R7"),
     V("get_data_locations: location name passed as deployment", FILE, f"{MGR}.get_data_locations", "deployment=deployment, name=location_name", "deployment=location_name, name=location_name", "R7"),
     V("get: deployment argument ignored", FILE, f"{M}.get", "for dep in [deployment] if deployment is not None else node.locations:", "for dep in node.locations if deployment is not None else [deployment]:", "R7"),
+    V("get: flattened comprehension, filter inverted", FILE, f"{M}.get", _GET_LOOPS, _GET_FLAT.replace("loc.data_type != data_type", "loc.data_type == data_type"), "R7"),
+    V("get: flattened comprehension, name clause sweeps every name", FILE, f"{M}.get", _GET_LOOPS,
+      _GET_FLAT.replace("for n in ([name] if name is not None else node.locations.get(dep, {}))", "for n in node.locations.get(dep, {})"), "R7"),
+    V("get: flattened comprehension, names swept over the deployment keys", FILE, f"{M}.get", _GET_LOOPS,
+      _GET_FLAT.replace("else node.locations.get(dep, {}))", "else node.locations)"), "R7"),
+    V("get: name argument used as the key, no sweep when it is None", FILE, f"{M}.get",
+      "for n in [name] if name is not None else node.locations.get(dep, {}):\n            result.extend([loc for loc in node.locations.get(dep, {}).get(n, [])",
+      "if True:\n            result.extend([loc for loc in node.locations.get(dep, {}).get(name, [])", "R7"),
+    V("get: append loop, filter keeps the other types", FILE, f"{M}.get", _GET_LOOPS, _GET_APPEND.replace("loc.data_type != data_type", "loc.data_type == data_type"), "R7"),
+    V("get: every list answered twice when no type is requested", FILE, f"{M}.get", "\n    return result",
+      "\n            if data_type is None:\n                result.extend(node.locations.get(dep, {}).get(n, []))\n    return result", "R7"),
     # ---- benign
+    V("benign: B4-1 nested loops + extend flattened into one comprehension with a temporary", FILE, f"{M}.get", _GET_LOOPS, _GET_FLAT, None),
+    V("benign: get written as loops with append and an early continue", FILE, f"{M}.get", _GET_LOOPS, _GET_APPEND, None),
+    V("benign: get, key choice written as if/else assignments, .keys() and a boolean temporary", FILE, f"{M}.get", _GET_LOOPS,
+      "result = []\n    if deployment is None:\n        deployments = list(node.locations.keys())\n    else:\n        deployments = [deployment]\n    for dep in deployments:\n"
+      "        names = node.locations.get(dep, {})\n        if name is not None:\n            names = [name]\n        for n in names:\n"
+      "            for loc in node.locations.get(dep, {}).get(n, []):\n                keep = data_type is None or loc.data_type == data_type\n                if keep:\n"
+      "                    result.append(loc)\n    return result", None),
+    V("benign: get, name given / not given handled in two branches", FILE, f"{M}.get",
+      "for n in [name] if name is not None else node.locations.get(dep, {}):\n            result.extend([loc for loc in node.locations.get(dep, {}).get(n, []) if not (data_type is not None and loc.data_type != data_type)])",
+      "if name is not None:\n            result.extend([loc for loc in node.locations.get(dep, {}).get(name, []) if data_type is None or loc.data_type == data_type])\n"
+      "        else:\n            for n in node.locations.get(dep, {}):\n                if data_type is None:\n                    result.extend(node.locations.get(dep, {}).get(n, []))\n"
+      "                else:\n                    result += [loc for loc in node.locations.get(dep, {}).get(n, []) if loc.data_type == data_type]", None),
     V("benign: mirrored statements swapped in invalidate", FILE, f"{M}.invalidate_location",
       "data_loc.data_type = DataType.INVALID\n        node.valid_paths[location.deployment][location.name].discard(data_loc.path)",
       "node.valid_paths[location.deployment][location.name].discard(data_loc.path)\n        data_loc.data_type = DataType.INVALID", None),
